@@ -95,6 +95,7 @@ def main():
     ap.add_argument("--only-lines", default="")
     ap.add_argument("--checks", default=",".join(ORDER))
     ap.add_argument("--name", default="mut")
+    ap.add_argument("--recheck", default="", help="re-run the checks on the SURVIVED mutants of an earlier result file (matched by line text)")
     a = ap.parse_args()
     checks = a.checks.split(",")
     os.makedirs(WORK, exist_ok=True)
@@ -114,6 +115,13 @@ def main():
         lo, hi = map(int, r.split("-"))
         cands = [c for c in cands if c[0] == f and lo <= c[1] + 1 <= hi]
     chosen = cands[a.offset :: a.stride][: a.limit]
+    if a.recheck:
+        want = set()
+        for l in open(a.recheck):
+            d = json.loads(l)
+            if d["result"] == "SURVIVED":
+                want.add((d["file"], d["op"], d["before"], d["after"]))
+        chosen = [c for c in cands if (c[0], c[2], c[3].strip(), c[4].strip()) in want]
     print(f"{len(cands)} candidate mutants, {len(chosen)} chosen (stride {a.stride}, offset {a.offset})", flush=True)
     done = set()
     if os.path.exists(a.out):
